@@ -169,6 +169,11 @@ func ruleLockBalance(ctx *Ctx, rule string, scope func(*flow.Unit) bool) {
 			// its summary, which is applied at each of its call sites, where the
 			// balance of the calling function is judged
 			r.Ok(rule, u.Name, pos, "new helper with net lock effect "+got+": accounted for at its call sites through its summary")
+		case len(s.All) > 0 && s.CondIdx < 0 && (u.Kind == flow.KindDeferLit || u.Kind == flow.KindCallLit) && u.Parent != nil:
+			// a function literal that its parent runs at a fixed point (deferred,
+			// or called in place): its net effect is applied there, and the
+			// parent's own balance is what is judged
+			r.Ok(rule, u.Name, pos, "literal run by its parent ("+u.Parent.Name+") with net lock effect "+got+": accounted for in the parent through its summary")
 		case s.CondIdx >= 0 || len(s.All) > 0:
 			tr := []string{}
 			if len(u.Exits) > 0 {
@@ -367,9 +372,113 @@ func dynamicCallee(info *types.Info, call *ast.CallExpr) string {
 		return "" // context.CancelFunc: does not block or call back (documented use under mu)
 	}
 	if _, ok := t.Underlying().(*types.Signature); ok {
+		if id, ok := fun.(*ast.Ident); ok && neverAssignedHook(info, id) {
+			return "" // an unexported package-level hook that nothing in the module sets: always nil, the call is dead
+		}
 		return "func value " + types.ExprString(fun)
 	}
 	return ""
+}
+
+// hookProg is the program whose sources neverAssignedHook scans (set by the
+// rules that classify dynamic calls).
+var hookProg *core.Prog
+var hookAssigned map[*types.Var]bool
+
+// neverAssignedHook: id names an unexported package-level variable of func
+// type declared without a value and never assigned (nor address-taken) in any
+// non-test source of the module — or a local whose only definition copies
+// such a variable. Such a hook is nil in every build of the library (tests can
+// set it), so a call through it is dead code; it is not application-provided.
+func neverAssignedHook(info *types.Info, id *ast.Ident) bool {
+	if hookProg == nil {
+		return false
+	}
+	if hookAssigned == nil {
+		hookAssigned = map[*types.Var]bool{}
+		for _, pk := range hookProg.ByPath {
+			if pk.TypesInfo == nil {
+				continue
+			}
+			pinfo := pk.TypesInfo
+			mark := func(e ast.Expr) {
+				if x, ok := ast.Unparen(e).(*ast.Ident); ok {
+					if v, ok := pinfo.Uses[x].(*types.Var); ok {
+						hookAssigned[v] = true
+					}
+				}
+			}
+			for _, file := range pk.Syntax {
+				ast.Inspect(file, func(n ast.Node) bool {
+					switch n := n.(type) {
+					case *ast.AssignStmt:
+						for _, l := range n.Lhs {
+							mark(l)
+						}
+					case *ast.UnaryExpr:
+						if n.Op == token.AND {
+							mark(n.X)
+						}
+					case *ast.ValueSpec:
+						if len(n.Values) > 0 {
+							for _, nm := range n.Names {
+								if v, ok := pinfo.Defs[nm].(*types.Var); ok {
+									hookAssigned[v] = true
+								}
+							}
+						}
+					}
+					return true
+				})
+			}
+		}
+	}
+	v, ok := info.Uses[id].(*types.Var)
+	if !ok {
+		return false
+	}
+	isHook := func(v *types.Var) bool {
+		return v.Pkg() != nil && v.Parent() == v.Pkg().Scope() && !v.Exported() && !hookAssigned[v] && strings.HasPrefix(v.Pkg().Path(), core.ModPath)
+	}
+	if isHook(v) {
+		return true
+	}
+	// a local defined once as a copy of such a variable: hook := pkgHook
+	if v.Parent() != nil && v.Pkg() != nil && v.Parent() != v.Pkg().Scope() {
+		var src *types.Var
+		defs := 0
+		for _, pk := range hookProg.ByPath {
+			if pk.Types != v.Pkg() {
+				continue
+			}
+			for _, file := range pk.Syntax {
+				if file.Pos() > v.Pos() || v.Pos() > file.End() {
+					continue
+				}
+				ast.Inspect(file, func(n ast.Node) bool {
+					as, ok := n.(*ast.AssignStmt)
+					if !ok || len(as.Lhs) != len(as.Rhs) {
+						return true
+					}
+					for i, l := range as.Lhs {
+						lid, ok := l.(*ast.Ident)
+						if !ok {
+							continue
+						}
+						if pk.TypesInfo.Defs[lid] == v || pk.TypesInfo.Uses[lid] == v {
+							defs++
+							if rid, ok := ast.Unparen(as.Rhs[i]).(*ast.Ident); ok {
+								src, _ = pk.TypesInfo.Uses[rid].(*types.Var)
+							}
+						}
+					}
+					return true
+				})
+			}
+		}
+		return defs == 1 && src != nil && isHook(src)
+	}
+	return false
 }
 
 // Named exemptions for dynamic calls under a lock.
@@ -391,6 +500,9 @@ func rulePolicy(ctx *Ctx, rule string, scope func(*flow.Unit) bool, pol heldPoli
 		return
 	}
 	r := ctx.Rep
+	if hookProg != ctx.Prog {
+		hookProg, hookAssigned = ctx.Prog, nil
+	}
 	classIDs := func(names []string) []int {
 		var out []int
 		for _, n := range names {
